@@ -3,6 +3,7 @@ import re
 from .common import *
 from .. import grammar
 from .chunk import sig
+from . import facts
 
 TY = "sessions::client::ClientSession"
 SELF = r"load\(\*?load\(self\)\.%s\)"
@@ -18,16 +19,48 @@ def state_discr(prog, name):
     return None
 
 
+def probe_of(path):
+    pr = [t for t in path if t[0] == "probe"]
+    return pr[-1][1] if pr else None
+
+
 def states_on(path, all_states):
-    """set of ClientState discriminants the path's decisions allow"""
-    allowed = set(all_states)
-    for t in path:
-        if t[0] == "when" and re.match(r"^discr\(" + SELF % "current_state" + r"\)$", t[1]):
-            if t[2].startswith("other:"):
-                allowed -= {int(x) for x in t[2][6:].split(",") if x.isdigit()}
-            else:
-                allowed &= {int(x) for x in t[2].split(",") if x.isdigit()}
-    return allowed
+    """set of ClientState discriminants the entry value of current_state can have on this path (what the path's final abstract
+    state knows about it - independent of how the guard is written)"""
+    pr = probe_of(path)
+    return set(pr[0]) & set(all_states) if pr else set(all_states)
+
+
+def active_some(path):
+    pr = probe_of(path)
+    return bool(pr and pr[1])
+
+
+def active_is_message_stream(path):
+    pr = probe_of(path)
+    return bool(pr and pr[2])
+
+
+def message_stream_param(env, prog, cb):
+    """index of the parameter of handler cb that receives the message stream id of the incoming message (from the call in the
+    dispatching function: the argument that is the payload's message_stream_id)"""
+    for ck in prog.callers.get(cb.key, ()):
+        caller = prog.bodies[ck]
+        for bi, t in caller.calls():
+            if callee_path(t) == cb.key:
+                S, args = args_at(env.ctx, ck, bi)
+                if S is None:
+                    continue
+                for i, a in enumerate(args):
+                    if contains(a, lambda x: isinstance(x, tuple) and ((x[0] == "ld" and x[1][1] and x[1][1][-1][0] == "f" and x[1][1][-1][2] == "message_stream_id") or
+                                                                         (x[0] == "proj" and x[2] and x[2][-1][0] == "f" and x[2][-1][2] == "message_stream_id"))):
+                        return i + 1
+                    if is_param_load(a) and caller.locals[a[1][0][1]].get("name") and i + 1 <= cb.arg_count:
+                        # forwarded parameter: look one level up
+                        up = message_stream_param(env, prog, caller) if caller.key != cb.key else None
+                        if up is not None and a[1][0][1] == up:
+                            return i + 1
+    return None
 
 
 def has_effect(path, ignore_remove_of=None):
@@ -53,7 +86,8 @@ def run(env, rep):
         "requested state and store the active one; R4 audio / video events need state in {PlayRequested, Playing} and "
         "active_stream_id == Some(message stream id), metadata needs the stream-id fact; R5 the stop functions store Connected, "
         "take active_stream_id and send deleteStream with that id; R6 a ping request is answered with its own timestamp; R7 the "
-        "transaction key is a lossy cast of the f64 id (known finding D13).  Not decided: the reachable-state claim as a whole.")
+        "transaction key is a lossy cast of the f64 id (known finding D13); R8 every transaction is registered under the current value of "
+        "the session's transaction counter, the counter is advanced past it on the same path, and the command sent carries that id.  Not decided: the reachable-state claim as a whole.")
     from .. import interp as I
     I.ELEM_SOURCES[0] = True
     S = {n: state_discr(prog, n) for n in ("Disconnected", "Connected", "PlayRequested", "Playing", "PublishRequested", "Publishing")}
@@ -67,7 +101,15 @@ def run(env, rep):
         if name in ("handle_input", "new"):
             continue
         rep.fn(b.key)
-        traces[name] = [sig(p) for p in grammar.trace(env, b.key, "r").paths]
+        sp = message_stream_param(env, prog, b)
+
+        def probe(it, St, b=b, sp=sp):
+            cs = facts.entry_field(it, prog, TY, ["current_state"])
+            act = facts.entry_field(it, prog, TY, ["active_stream_id"])
+            sid = facts.State().read((it.L(sp), ())) if sp else None
+            return (tuple(sorted(facts.discr_values(St, cs, ALL))), facts.is_some(St, act), facts.is_some_of(St, act, sid) if sid is not None else False,
+                    facts.growth(St, it, prog, TY, ["next_transaction_id"]))
+        traces[name] = [sig(p) for p in grammar.trace(env, b.key, "r", probe=probe).paths]
     # ------------------------------------------------------------------ R1
     guards = {
         "request_connection": ({S["Disconnected"]}, False), "request_playback": ({S["Connected"]}, False), "request_publishing": ({S["Connected"]}, False),
@@ -89,7 +131,7 @@ def run(env, rep):
             st = states_on(p, ALL)
             if not st <= allowed:
                 bad.append("a path that %s is possible in state(s) %s" % ("serializes a request / changes the session", sorted({k for k, v in S.items() if v in st - allowed})))
-            if need_stream and not any(t[0] == "when" and re.match(r"^discr\(" + SELF % "active_stream_id" + r"\)$", t[1]) and t[2] == "1" for t in p):
+            if need_stream and not active_some(p):
                 bad.append("a sending path does not require an active stream id")
         rep.check("C10.R1", "%s|guard" % name, n_eff >= 1 and not bad, "acts only in state %s%s (%d acting path(s))" % (sorted(k for k, v in S.items() if v in allowed), " with an active stream" if need_stream else "", n_eff),
                   "%s: %s" % (name, "; ".join(sorted(set(bad))) or "no acting path found"), bodies[name].span)
@@ -185,9 +227,7 @@ def run(env, rep):
             if not states_on(p, ALL) <= {S["PlayRequested"], S["Playing"]}:
                 ok = False
                 why.append("raised in state(s) %s" % sorted(k for k, v in S.items() if v in states_on(p, ALL)))
-            same = any(t[0] == "when" and re.match(r"^\(" + SELF % "active_stream_id as Some\\.0" + r" (Ne|Eq) load\(stream_id\)\)$", t[1]) and
-                       ((" Ne " in t[1] and t[2] == "0") or (" Eq " in t[1] and t[2].startswith("other"))) for t in p)
-            if not same:
+            if not active_is_message_stream(p):
                 ok = False
                 why.append("raised without comparing the message stream id with the active stream id")
             if not re.search(ev + r"\(load\(timestamp\), load\(data\)\)", text):
@@ -201,7 +241,7 @@ def run(env, rep):
         for p in paths:
             if any(t[0] == "call" and t[1].endswith("handle_amf0_data_on_meta_data") for t in p):
                 n += 1
-                if not any(t[0] == "when" and re.match(r"^\(" + SELF % "active_stream_id as Some\\.0" + r" (Ne|Eq) load\(stream_id\)\)$", t[1]) for t in p):
+                if not active_is_message_stream(p):
                     ok = False
         rep.check("C10.R4", "metadata|gate", ok and n >= 1, "metadata is accepted only on the active stream", "handle_amf0_data forwards metadata without checking the message stream id against the active stream id", bodies["handle_amf0_data"].span)
     # ------------------------------------------------------------------ R5 stop
@@ -233,12 +273,61 @@ def run(env, rep):
     paths = traces.get("handle_ping_request", [])
     okp = any(t[0] == "call" and t[1].endswith("into_message_payload") and re.search(r"UserControlEventType::PingResponse, None, None, load\(timestamp\)\)", t[2][0]) for p in paths for t in p)
     rep.check("C10.R6", "ping-echo", okp, "the PingResponse carries the PingRequest's timestamp", "the ping response is not built with the request's own timestamp", bodies["handle_ping_request"].span if "handle_ping_request" in bodies else None)
+    # ------------------------------------------------------------------ R8 fresh transaction ids
+    ENTRY = r"load\(\*?load\(self\)\.next_transaction_id\)"
+    n8, bad8 = 0, []
+    for name, paths in sorted(traces.items()):
+        for p in paths:
+            ins = [t for t in p if t[0] == "mut" and t[2] == "outstanding_transactions" and t[1] == "insert"]
+            if not ins:
+                continue
+            pr = probe_of(p)
+            grown = pr[3] if pr else None
+            for t in ins:
+                n8 += 1
+                k = t[3][0] if t[3] else ""
+                m = re.match(r"^&?\(?" + ENTRY + r"(?: Add (\d+)\))?$", k)
+                if not m:
+                    bad8.append("%s registers a transaction under %s, which is not the session's transaction counter" % (name, k[:80]))
+                    continue
+                off = int(m.group(1) or 0)
+                if grown is None or grown < off + 1:
+                    bad8.append("%s registers a transaction under the counter's value but does not advance the counter past it on the same path (the next request would reuse the id)" % name)
+                sent = [c for c in p if c[0] == "call" and c[1].endswith("into_message_payload") and c[2] and "Amf0Command(" in c[2][0]]
+                if sent and not re.search(r"\(\(?" + ENTRY + (r" Add %d\)" % off if off else r"\)?") + r" as~? ?f64\)", sent[0][2][0]):
+                    bad8.append("%s sends a command whose transaction id is not the id the transaction was registered under: %s" % (name, sent[0][2][0][:120]))
+    rep.check("C10.R8", "fresh-transaction-ids", n8 >= 3 and not bad8, "every transaction is registered under the current value of the transaction counter, which is advanced past it on the same path, and the command carries that id (%d registration(s))" % n8,
+              "; ".join(sorted(set(bad8))) or "fewer than three transaction registrations found (connect, createStream for play, createStream for publish)")
     # ------------------------------------------------------------------ R7 transaction key exactness
-    for name in ("handle_amf0_command_success_result", "handle_amf0_command_failed_result"):
-        for p in traces.get(name, [])[:1]:
-            rm = [t for t in p if t[0] == "mut" and t[2] == "outstanding_transactions"]
-            if rm:
-                k = rm[0][3][0]
-                exact = "as~ u32" not in k and "as u32" not in k
-                rep.check("C10.R7", "%s|exact-key" % name, exact, "the transaction key is the id itself",
-                          "the transaction is looked up under %s: a lossy cast of the peer's f64 transaction id (a _result with id 1.5 is applied to transaction 1)" % k, bodies[name].span)
+    # wherever a transaction is looked up under a number converted from the peer's f64 id, the path must have established that
+    # the conversion is exact: (key as f64) == id.  Otherwise a _result with id 1.5 is applied to transaction 1.
+    n7 = 0
+    for name, paths in sorted(traces.items()):
+        sites = {}
+        for p in paths:
+            for ti, t in enumerate(p):
+                if not (t[0] == "mut" and t[2] == "outstanding_transactions" and t[1] in ("remove", "get", "get_mut", "contains_key")):
+                    continue
+                k = t[3][0] if t[3] else ""
+                m = re.match(r"^&?\((.+) as~? ?(u8|u16|u32|u64|usize|i32|i64)\)$", k)
+                if not m or not re.match(r"^load\(\w+\)$", m.group(1)):
+                    continue
+                src = m.group(1)
+                key_txt = k.lstrip("&")
+                exact = False
+                for w in p[:ti]:
+                    if w[0] != "when":
+                        continue
+                    mm = re.match(r"^\(\(" + re.escape(key_txt) + r" as~? ?f64\) (Ne|Eq) " + re.escape(src) + r"\)$", w[1]) or \
+                        re.match(r"^\(" + re.escape(src) + r" (Ne|Eq) \(" + re.escape(key_txt) + r" as~? ?f64\)\)$", w[1])
+                    if mm:
+                        truth = w[2].startswith("other") or w[2] == "1"
+                        if (mm.group(1) == "Eq" and truth) or (mm.group(1) == "Ne" and not truth):
+                            exact = True
+                sites.setdefault(k, []).append(exact)
+        for k, flags in sorted(sites.items()):
+            n7 += 1
+            rep.check("C10.R7", "%s|exact-key" % name, all(flags), "the transaction is looked up under %s only after checking that the conversion of the peer's id is exact" % k,
+                      "the transaction is looked up under %s: a lossy conversion of the peer's f64 transaction id that is not checked for exactness (a _result with id 1.5 is applied to transaction 1)" % k,
+                      bodies[name].span)
+    rep.floor("C10.R7", "transaction lookups keyed by a converted id", n7, 1)
